@@ -5,11 +5,11 @@ func init() {
 		// self-test of the reference codec (a failure is an infrastructure problem, not a violation)
 		{Run: "TestReference", Kind: "test"},
 		// symmetric MSG chunks from signAndEncrypt on drawn nonces (no RSA): cheap and broad
-		{Run: "TestKeyedChunks", Quick: 24000, Thorough: 800000, QShards: 8, TShards: 16},
+		{Run: "TestKeyedChunks", Quick: 16000, Thorough: 800000, QShards: 8, TShards: 16},
 		// the three channel forms each cost one RSA handshake per case (up to ~15 private
 		// key operations incl. the reference's; ~7 ms each at 4096 bit): shard
-		{Run: "TestWire", Quick: 480, Thorough: 12000, QShards: 16, TShards: 16},
-		{Run: "TestRefClient", Quick: 480, Thorough: 12000, QShards: 16, TShards: 16},
-		{Run: "TestRefServer", Quick: 480, Thorough: 12000, QShards: 16, TShards: 16},
+		{Run: "TestWire", Quick: 320, Thorough: 12000, QShards: 16, TShards: 16},
+		{Run: "TestRefClient", Quick: 320, Thorough: 12000, QShards: 16, TShards: 16},
+		{Run: "TestRefServer", Quick: 320, Thorough: 12000, QShards: 16, TShards: 16},
 	}}
 }
